@@ -52,6 +52,7 @@ const (
 type nodeTemplate struct {
 	dir        string
 	genesisSig cipher.Sig
+	genesisHash cipher.SHA256
 	// material for requests
 	spentTxnHex   string // encoded, fully signed transaction whose inputs are all spent and that is NOT in the chain
 	spendableHex  string // encoded valid transaction that is not pooled
@@ -166,6 +167,7 @@ func buildTemplate() (*nodeTemplate, error) {
 		return nil, fmt.Errorf("no genesis block: %v", err)
 	}
 	t.genesisSig = gb.Sig
+	t.genesisHash = gb.HashHeader()
 
 	now := uint64(c28GenesisTime)
 	unspent := func() []utxo {
@@ -356,7 +358,10 @@ func copyTree(src, dst string) error {
 
 var allAPISets = map[string]struct{}{"READ": {}, "STATUS": {}, "TXN": {}, "WALLET": {}, "INSECURE_WALLET_SEED": {}, "NET_CTRL": {}, "STORAGE": {}}
 
-func startNode(t *nodeTemplate) (*liveNode, error) {
+func startNode(t *nodeTemplate) (*liveNode, error) { return startNodeOpt(t, false) }
+
+// startNodeOpt: with networking the daemon listens on a kernel-chosen loopback port (no outgoing connections, no pex)
+func startNodeOpt(t *nodeTemplate, networking bool) (*liveNode, error) {
 	n := &liveNode{dir: hx.TempDir("c28node")}
 	if err := copyTree(t.dir, n.dir); err != nil {
 		return nil, err
@@ -377,7 +382,15 @@ func startNode(t *nodeTemplate) (*liveNode, error) {
 		return nil, err
 	}
 	dc := daemon.NewConfig()
-	dc.Daemon.DisableNetworking = true
+	dc.Daemon.DisableNetworking = !networking
+	if networking {
+		dc.Daemon.DisableOutgoingConnections = true
+		dc.Daemon.LocalhostOnly = true
+		dc.Daemon.Address = "127.0.0.1"
+		dc.Daemon.Port = 0
+		dc.Daemon.IntroductionWait = 10 * time.Minute
+		dc.Daemon.GenesisHash = t.genesisHash
+	}
 	dc.Daemon.DataDirectory = n.dir
 	dc.Pex.DataDirectory = n.dir
 	dc.Pex.Disabled = true
